@@ -16,3 +16,5 @@ Lemma tie_src_basic_go : f_src_basic_go = pin_src_basic_go. Proof. reflexivity. 
 Lemma tie_src_message_go : f_src_message_go = pin_src_message_go. Proof. reflexivity. Qed.
 Lemma tie_src_metaobject_gen_go : f_src_metaobject_gen_go = pin_src_metaobject_gen_go. Proof. reflexivity. Qed.
 Lemma tie_src_authenticate_go : f_src_authenticate_go = pin_src_authenticate_go. Proof. reflexivity. Qed.
+Lemma tie_src_type_go : f_src_type_go = pin_src_type_go. Proof. reflexivity. Qed.
+Lemma tie_src_signature_go : f_src_signature_go = pin_src_signature_go. Proof. reflexivity. Qed.
